@@ -376,6 +376,26 @@ pub fn run(tier: Tier) -> i32 {
                     }
                 }
             }
+            // a transient Interrupted before any single read call must not change the window either
+            // (on the first three cases of every work unit: the base frame and two bit flips)
+            if loc.counts.get("interrupted_reader_cases").copied().unwrap_or(0) < 72
+            {
+                for at in 0..24usize {
+                    let mut script = vec![crate::e3::Ans::Full; at];
+                    script.push(crate::e3::Ans::Interrupted);
+                    let b2 = bytes.to_vec();
+                    let got = crate::common::guarded(move || {
+                        let mut r = crate::e3::Scripted::new(&b2, &script);
+                        adsb_deku::Frame::from_reader(&mut r).map(|f| f.crc)
+                    });
+                    loc.inc("interrupted_reader_cases");
+                    if let Ok(Ok(c)) = got {
+                        if c != want {
+                            loc.viol("crc-window", format!("{}:crc-interrupted-reader", lay.leaf), format!("frame={} script={}I", hex(bytes), "F,".repeat(at)), format!("{want:06x}"), format!("{c:06x}"));
+                        }
+                    }
+                }
+            }
             // the same frame followed by garbage: window must stay the first 7/14 bytes
             let mut ext = bytes.to_vec();
             ext.extend_from_slice(&[0xde, 0xad, 0xbe, 0xef, 0x01]);
@@ -386,6 +406,26 @@ pub fn run(tier: Tier) -> i32 {
             }
         }
     });
+    // a buffer shorter than its format has no 7/14-byte window: it must not be reported with a checksum at all
+    {
+        use crate::gen::contexts;
+        let mut n = 0u64;
+        for l in &leaves {
+            for (_, c) in contexts(l.nbits / 8, tier, run.seed).into_iter().take(3) {
+                let mut b = c.clone();
+                for (f, w, v) in &l.fixed {
+                    crate::bits::set_bits(&mut b, *f as usize, *w as usize, *v);
+                }
+                for len in 0..b.len() {
+                    n += 1;
+                    if let Decoded::Ok(f) = decode(&b[..len]) {
+                        viol(&run, "crc-window", &format!("{}:checksum-of-truncated-buffer", l.name), hex(&b[..len]), "Err (no window of 7/14 bytes)".into(), format!("Ok crc={:06x}", f.crc));
+                    }
+                }
+            }
+        }
+        run.add("truncated_buffer_cases", n);
+    }
     valid_frames(&run);
     error_detection(&run, tier);
     run.sample(json!({"automaton": "messages [p0,p1,p2,b,0,0,0] for all prefixes and all b", "example": "8d40621d000000"}));
